@@ -12,8 +12,8 @@ import checklib
 
 # property -> (module, NEXT, INVARIANT, {tier: constants})
 FUN_MODELS = {
-    "C01": ("MCFun", "Next_C01", "Inv_C01", {"quick": (5, 5), "thorough": (8, 8)}),
-    "C02": ("MCFun", "Next_C02", "Inv_C02", {"quick": (5, 6), "thorough": (8, 8)}),
+    "C01": ("MCFun", "Next_C01", "Inv_C01", {"quick": (5, 5), "thorough": (7, 8)}),
+    "C02": ("MCFun", "Next_C02", "Inv_C02", {"quick": (5, 6), "thorough": (7, 8)}),
     "C04": ("MCFun", "Next_C04", "Inv_C04", {"quick": (5, 6), "thorough": (8, 8)}),
     "C05": ("MCFun", "Next_C05", "Inv_C05", {"quick": (8, 0), "thorough": (13, 0)}),
     "C06": ("MCFun", "Next_C06", "Inv_C06", {"quick": (8, 0), "thorough": (13, 0)}),
